@@ -1,11 +1,15 @@
 import CJ.Model.Registrar
 import CJ.Gen.C12Wrapper
 import CJ.Drv.Util
+import CJ.Drv.OverrideCidr
 /-! Driver for the registrar model (C12).
 
 `registrar|<cfg>|<req>|<ext>|<regMethod>|<clientAddr>` where
 * cfg = `auth,hasOverrides,enforce,pctMin,pctPrefix;<min subnets>;<prefix subnets>;<exclusions>`,
-  subnets separated by `/`, each `isV4:base:ones:weight:port:pfx:label`, pfx = `-` or `id~prefixhex~flush`,
+  subnets separated by `/`, each `isV4:base:ones:weight:port:pfx:label` (an entry given as parsed values) or
+  `T<hex of the cidr text>:weight:port:pfx:label` (an entry given as the configuration file has it: the model
+  decodes the text, `CJ.OverrideCidr.entry`; a text the decoder refuses makes the line `bad-op`: such a
+  configuration is not loaded), pfx = `-` or `id~prefixhex~flush`,
   label = `-` (transport field unset) | n (`"<Name>_Transport"` of pb.TransportType n) | `x` (names no transport)
 * req = `hasPayload,secretLen,v4,v6,transport,disable,source,regAddr,params,forgedResp,forgedBytes,forgedSig`
   params = `-` | `P:id:prefixhex:flush:randomize` (each `-` if absent) | `O:token`; forgedResp = `-` | `v4.port`
@@ -56,6 +60,10 @@ def parseSubnet (s : String) : Option Subnet :=
   | [v4, base, ones, w, port, pfx, lbl] => do
     some { isV4 := ← parseBool v4, base := ← base.toNat?, ones := ← ones.toNat?, weight := ← w.toNat?,
            port := ← port.toNat?, pfx := ← optField pfx parseTriple, label := ← parseLabel lbl }
+  | [text, w, port, pfx, lbl] => do
+    if !text.startsWith "T" then none else
+    let t ← OverrideCidr.hexStr (text.drop 1).toString
+    CJ.OverrideCidr.entry t (← w.toNat?) (← port.toNat?) (← optField pfx parseTriple) (← parseLabel lbl)
   | _ => none
 
 def parseCfg (s : String) : Option Cfg :=
